@@ -79,6 +79,11 @@ func (ff *FuncFacts) lin(v ssa.Value, depth int) Lin {
 	if depth > 30 {
 		return single(ff.termKey(v))
 	}
+	if ff.LeafKey != nil {
+		if k, ok := ff.LeafKey(v); ok {
+			return single(k)
+		}
+	}
 	v = ff.Fwd(v)
 	switch x := v.(type) {
 	case *ssa.Const:
@@ -112,6 +117,12 @@ func (ff *FuncFacts) lin(v ssa.Value, depth int) Lin {
 				k = -1
 			}
 			return ff.lin(cc.Args[0], depth+1).Plus(ff.linArgs(cc.Args[1], depth+1), k)
+		case recvMath && (name == "AddAmount" || name == "SubAmount" || name == "AddRaw" || name == "SubRaw") && len(cc.Args) == 2:
+			k := 1
+			if strings.HasPrefix(name, "Sub") {
+				k = -1
+			}
+			return ff.lin(cc.Args[0], depth+1).Plus(ff.lin(cc.Args[1], depth+1), k)
 		case recvMath && name == "Neg" && len(cc.Args) == 1:
 			return Lin{}.Plus(ff.lin(cc.Args[0], depth+1), -1)
 		case recvMath && (name == "AmountOf") && len(cc.Args) == 2:
@@ -278,6 +289,13 @@ func (ff *FuncFacts) tkey(v ssa.Value, depth int) string {
 		return fmt.Sprintf("%s#%d", ff.tkey(x.Tuple, depth+1), x.Index)
 	case *ssa.Call:
 		cc := x.Common()
+		if f, ok := ff.P.PBGetterField(cc); ok {
+			k := ff.tkey(cc.Args[0], depth+1) + "." + f
+			if _, isPtr := cc.Args[0].Type().Underlying().(*types.Pointer); isPtr {
+				k = "*" + k
+			}
+			return k
+		}
 		if !cc.IsInvoke() {
 			if sc := cc.StaticCallee(); sc != nil && isPure(sc) {
 				var as []string
@@ -311,7 +329,7 @@ func (ff *FuncFacts) tkey(v ssa.Value, depth int) string {
 				}
 				return "*" + k
 			}
-			return fmt.Sprintf("load@%d", ff.id(x))
+			return fmt.Sprintf("load@%d", ff.id(ff.loadRep(x)))
 		}
 	case *ssa.Alloc:
 		return fmt.Sprintf("alloc@%d", ff.id(x))
@@ -390,4 +408,124 @@ func isPure(fn *ssa.Function) bool {
 		return fn.Name() == "GetShareDenom" || fn.Name() == "GetPoolShareDenom"
 	}
 	return path == "cosmossdk.io/math" || strings.HasSuffix(path, "cosmos-sdk/types")
+}
+
+// ---- value numbering of memory loads ---------------------------------------------------------
+
+// loadRep returns the representative of a memory load: an earlier load of the structurally
+// same address that dominates it with no possibly-aliasing store and no impure call on any
+// path in between (so both read the same value).  `x.f` read twice in a row is one term.
+func (ff *FuncFacts) loadRep(x *ssa.UnOp) *ssa.UnOp {
+	if ff.loadReps == nil {
+		ff.loadReps = map[*ssa.UnOp]*ssa.UnOp{}
+		ff.loadsByAddr = map[string][]*ssa.UnOp{}
+		n := 0
+		for _, b := range ff.Fn.Blocks {
+			n += len(b.Instrs)
+		}
+		if n <= 4000 {
+			for _, b := range ff.Fn.Blocks {
+				for _, in := range b.Instrs {
+					if u, ok := in.(*ssa.UnOp); ok && u.Op == token.MUL {
+						if k := ff.addrKey(u.X, 0); k != "" {
+							ff.loadsByAddr[k] = append(ff.loadsByAddr[k], u)
+						}
+					}
+				}
+			}
+		}
+	}
+	if r, ok := ff.loadReps[x]; ok {
+		return r
+	}
+	ff.loadReps[x] = x // cycle guard
+	k := ff.addrKey(x.X, 0)
+	rep := x
+	if k != "" {
+		var best *ssa.UnOp
+		for _, c := range ff.loadsByAddr[k] {
+			if c == x || !Dominates(c, x) {
+				continue
+			}
+			if best != nil && !Dominates(best, c) {
+				continue // keep the nearest dominating candidate
+			}
+			best = c
+		}
+		if best != nil && !ff.killedBetween(best, x) {
+			rep = ff.loadRep(best)
+		}
+	}
+	ff.loadReps[x] = rep
+	return rep
+}
+
+func (ff *FuncFacts) addrKey(a ssa.Value, depth int) string {
+	if depth > 8 {
+		return ""
+	}
+	switch x := a.(type) {
+	case *ssa.FieldAddr:
+		if k := ff.addrKey(x.X, depth+1); k != "" {
+			return k + "." + fieldName(x.X.Type(), x.Field)
+		}
+	case *ssa.IndexAddr:
+		if k := ff.addrKey(x.X, depth+1); k != "" {
+			return fmt.Sprintf("%s[v%d]", k, ff.id(ff.Fwd(x.Index)))
+		}
+	case *ssa.UnOp:
+		if x.Op == token.MUL {
+			if _, ok := ff.fwd[x]; ok {
+				return fmt.Sprintf("v%d", ff.id(ff.Fwd(x)))
+			}
+			return fmt.Sprintf("L%d", ff.id(ff.loadRep(x)))
+		}
+	case *ssa.Parameter, *ssa.FreeVar, *ssa.Global:
+		return fmt.Sprintf("v%d", ff.id(a))
+	case *ssa.Alloc:
+		return "" // locals are handled by store forwarding
+	case *ssa.Extract, *ssa.Call, *ssa.Phi:
+		return fmt.Sprintf("v%d", ff.id(a))
+	}
+	return ""
+}
+
+// killedBetween: may the value at c's address change on some path from c to x?
+func (ff *FuncFacts) killedBetween(c, x *ssa.UnOp) bool {
+	t := x.Type()
+	_, hit := ReachesWithout(ff.Fn, c, func(in ssa.Instruction) bool {
+		switch y := in.(type) {
+		case *ssa.Store:
+			if _, isAlloc := y.Addr.(*ssa.Alloc); isAlloc {
+				return false // a local variable cannot alias a heap location
+			}
+			return types.Identical(y.Val.Type(), t) || !isBasicOrMath(t)
+		case ssa.CallInstruction:
+			cc := y.Common()
+			if cc.IsInvoke() {
+				return true
+			}
+			if _, isBuiltin := cc.Value.(*ssa.Builtin); isBuiltin {
+				return cc.Value.Name() == "copy" || cc.Value.Name() == "append" || cc.Value.Name() == "delete" || cc.Value.Name() == "clear"
+			}
+			sc := cc.StaticCallee()
+			if sc == nil {
+				return true
+			}
+			if p := fnPkg(sc); p != nil && (p.Path() == "cosmossdk.io/math" || (strings.HasSuffix(p.Path(), "cosmos-sdk/types") && sc.Signature.Recv() != nil && IsMathType(sc.Signature.Recv().Type()))) {
+				return false // value-semantics arithmetic and comparisons
+			}
+			return true
+		}
+		return false
+	}, func(in ssa.Instruction) bool { return in == ssa.Instruction(x) })
+	return hit
+}
+
+func isBasicOrMath(t types.Type) bool {
+	if IsMathType(t) {
+		return true
+	}
+	_, ok := t.Underlying().(*types.Basic)
+	return ok
 }
